@@ -1057,6 +1057,21 @@ class PolarsModel(data_algebra.data_model.DataModel):
                 how=how,
                 suffix="_da_right_tmp",
             )
+            if how == "outer":
+                # newer Polars keeps the right table's key columns apart in a full join (suffixed):
+                # fold them into the key like any shared column, or right-only rows have no key
+                joined_columns = set(
+                    res.collect_schema().names()
+                    if hasattr(res, "collect_schema")
+                    else res.columns
+                )
+                coalesce_columns = coalesce_columns.union(
+                    [
+                        ka
+                        for ka, kb in zip(op.on_a, op.on_b)
+                        if (ka == kb) and ((ka + "_da_right_tmp") in joined_columns)
+                    ]
+                )
             if len(coalesce_columns) > 0:
                 res = res.with_columns(
                     [
